@@ -111,6 +111,43 @@ def role_run_fn(F):
     return p, rs
 
 
+def loop_enqueue_idiom(F, ins):
+    """The explicit-loop spelling of INSERT's pipeline (`for s in &feature.scenarios { add(None, s) } for r in .. { for s in .. }`
+    with `add = |..| map.entry(classifier(..)).or_default().push(entry)`).  Returns {"ok_next": {(body key, site key)},
+    "pushes": [(body, site, term, entry_term or None, container (body, local) or None)]}."""
+    bodies = F.nested(ins)
+    pushes = []
+    for b in bodies:
+        for s, t in b.calls(lambda t: callee_is(t, r"Vec::<.*>::push$")):
+            ch = A.receiver_chain(b, t["args"][0])
+            ent = [(cs, ct) for cs, ct in ch if callee_is(ct, r"(HashMap|BTreeMap|IndexMap|LinkedHashMap)::<.*>::entry$")]
+            cont = None
+            if ent:
+                l = op_local(ent[-1][1]["args"][0])
+                if l is not None:
+                    cb, cp = A.canon_place_deep(F, b, {"l": l, "p": ["*"]})
+                    if not cp["p"]:
+                        cont = (cb, cp["l"])
+            pushes.append((b, s, t, ent[-1][1] if ent else None, cont))
+    storing = {}
+    for b, s, t, ent, cont in pushes:
+        if b is not ins and not b.is_coroutine and not b.entry_reaches_return(stop=[s]):
+            storing[b.key] = b
+    ok_next = set()
+    for b in bodies:
+        nexts = [(s, t) for s, t in b.calls(lambda t: iter_adaptor_name(t) == "next")]
+        for s, t in nexts:
+            handlers = {s2.bb for s2, t2 in nexts if s2 != s}
+            handlers |= {s2.bb for b2, s2, t2, _, _ in pushes if b2 is b}
+            for s2, t2 in b.calls(lambda t2: callee_is(t2, r"ops::Fn(Mut|Once)?::call(_mut|_once)?$")):
+                kb = A.closure_of_operand(F, b, t2["args"][0]) if t2["args"] else None
+                if kb is not None and kb.key in storing:
+                    handlers.add(s2.bb)
+            if A.for_loop_handles_every_element(b, s, t, handlers):
+                ok_next.add((b.key, s.key()))
+    return {"ok_next": ok_next, "pushes": pushes}
+
+
 # ---- R1 -------------------------------------------------------------------------------------------
 
 def r1(F, R):
@@ -127,6 +164,7 @@ def r1(F, R):
         R.check((owner, name) in fields, inst, ins,
                 f"enqueue path reads {owner}.{name}", f"enqueue path {ins.short} never reads {owner}.{name}: those scenarios are not enqueued")
     # adaptor whitelist over the whole enqueue expression (body + nested closures)
+    idiom = loop_enqueue_idiom(F, ins)
     n = 0
     for b in bodies:
         for site, t in b.calls():
@@ -134,14 +172,18 @@ def r1(F, R):
             if nm is None:
                 continue
             n += 1
-            if nm in LOSSY or nm not in ORDER_PRESERVING:
+            if nm == "next" and (b.key, site.key()) in idiom["ok_next"]:
+                R.ok("adaptor/for-loop", site, "`for` loop left only at the iterator's end, every element is stored")
+            elif nm in LOSSY or nm not in ORDER_PRESERVING:
                 R.violation(f"adaptor/{nm}", site, f"iterator adaptor `{nm}` on the enqueue path may drop or reorder scenarios")
             else:
                 R.ok(f"adaptor/{nm}", site, "length-preserving adaptor")
     # the batch handed to ENQUEUE is data-dependent on the chain
     s2, t2, enq = role_enqueue(F)
     sl = A.slice_back(ins, t2["args"])
-    R.check(sl.has_call(r"into_group_map_by$") or sl.has_call(r"Iterator::(chain|collect)$"), "batch-from-chain", s2,
+    batch_locals = {A.canon_place(ins, op_place(a))["l"] for a in t2["args"] if op_place(a) is not None}
+    filled = any(cont is not None and cont[0] is ins and cont[1] in batch_locals for _, _, _, _, cont in idiom["pushes"])
+    R.check(sl.has_call(r"into_group_map_by$") or sl.has_call(r"Iterator::(chain|collect)$") or filled, "batch-from-chain", s2,
             "batch passed to ENQUEUE derives from the scenario chain", "batch passed to ENQUEUE does not derive from the scenario iterator chain")
     # ENQUEUE: every element of every loop over scenario entries is stored
     loops = 0
